@@ -150,7 +150,7 @@ func vKRunScenario(sc vKScenario) (*vKRun, map[string]int) {
 			}
 		}
 	}()
-	calm := 5*interval + 4*time.Millisecond
+	calm := 6*interval + 80*time.Millisecond // generous: a loaded machine delays timers by tens of ms
 	patience := 6 * time.Second
 	var wg sync.WaitGroup
 	for _, ds := range sc.Scripts {
@@ -240,7 +240,7 @@ func TestVerifKDeb(t *testing.T) {
 		info map[string]int
 	}
 	results := make([]res, n)
-	sem := make(chan struct{}, 6)
+	sem := make(chan struct{}, 12)
 	var wg sync.WaitGroup
 	for i := range scs {
 		wg.Add(1)
